@@ -34,20 +34,34 @@ LEGAL_PAIRS = [p for p in PAIRS if (p[0] in WRAP) == (p[1] in WRAP)]
 _BUILD_LOCK = threading.Lock()                    # fdtdx names unnamed objects from a non-atomic global counter
 
 
-def model_check(ctx):
-    import os
+def _mc_jobs(ctx):
+    """(kind, module, cfg, workers, label): the TLC runs on the specifications themselves."""
+    if ctx.quick:
+        jobs = [("mc", "Bounds", "MC_Bounds_q.cfg", 4,
+                 "direct: all 5^6 type assignments, thicknesses <<1,2,2,1,1,2>>; from_uniform_bound: 3 base types (one unknown) x 3^6 overrides x thickness 1..2; volume 5x6x7"),
+                ("mc", "BoundsExtend", "MC_BoundsExtend_q.cfg", 2,
+                 "extend_material_to_pml: every PML subset of the six faces, thickness 1..2, EVERY processing order, 4x4x3 cells")]
+    else:
+        jobs = [("mc", "Bounds", "MC_Bounds_t.cfg", 8,
+                 "direct: all 6^6 type assignments (5 types + an unknown one) x 2 complementary thickness vectors; from_uniform_bound: 3 base types x 6^6 overrides x thickness 1..2; volume 5x6x7"),
+                ("mc", "Bounds", "MC_Bounds_t2.cfg", 4, "direct: 2^6 type assignments over {pml, periodic} x ALL 3^6 thickness vectors in 1..3; volume 7x8x9"),
+                ("mc", "BoundsExtend", "MC_BoundsExtend_t.cfg", 4,
+                 "extend_material_to_pml: every PML subset of the six faces, thickness 1..2, EVERY processing order, 5x5x6 cells")]
+    jobs += [("neg", "Bounds", "MC_Bounds_neg.cfg", 1, "min_y table entries read min_x"),
+             ("neg", "Bounds", "MC_Bounds_neg2.cfg", 1, "slab placed at the wrong end"),
+             ("neg", "Bounds", "MC_Bounds_neg3.cfg", 1, "wrap padding decided from the min face only"),
+             ("neg", "BoundsExtend", "MC_BoundsExtend_neg.cfg", 1, "extension copies from the wrong layer")]
+    return jobs
 
-    if os.environ.get("VERIF_SKIP_MC") == "1":     # development knob
-        return
-    ctx.mc("Bounds", "MC_Bounds_q.cfg" if ctx.quick else "MC_Bounds_t.cfg", workers=4 if ctx.quick else 8,
-           label="direct: all 5^6 type assignments x 2 thickness vectors (thorough: x all 64 vectors in {1,2}^6); uniform: from_uniform_bound with "
-                 "3 base types incl. an unknown one x 3^6 overrides (thorough: 6 x 6^6) x thickness 1..2; volume 5x6x7")
-    ctx.mc_negative("Bounds", "MC_Bounds_neg.cfg", workers=2)     # min_y table entries read min_x
-    ctx.mc_negative("Bounds", "MC_Bounds_neg2.cfg", workers=2)    # slab placed at the wrong end
-    ctx.mc_negative("Bounds", "MC_Bounds_neg3.cfg", workers=2)    # wrap padding decided from the min face only
-    ctx.mc("BoundsExtend", "MC_BoundsExtend_q.cfg" if ctx.quick else "MC_BoundsExtend_t.cfg", workers=4,
-           label="extend_material_to_pml: every PML subset of the six faces, thickness 1..2, EVERY processing order, 4x4x3 (thorough 5x5x6) cells")
-    ctx.mc_negative("BoundsExtend", "MC_BoundsExtend_neg.cfg", workers=2)   # copies from the wrong layer
+
+def model_check(ctx):
+    """TLC on Bounds / BoundsExtend and their negative instances.  The JVMs run concurrently (threads around
+    lib.tlc.run_tlc); the bookkeeping of Ctx.mc / Ctx.mc_negative is done afterwards, sequentially."""
+    import os
+    from concurrent.futures import ThreadPoolExecutor
+
+    from lib import tlc
+
     ctx.assumptions += [
         "thicknesses leave at least one cell outside the boundaries on every axis (min + max thickness < cells); fdtdx accepts overlapping opposite PMLs silently, which is outside these rules",
         "no mirror symmetry (config.symmetry = none): C34 covers how symmetry drops/adds boundary objects",
@@ -55,6 +69,27 @@ def model_check(ctx):
         "unconfigured (None) parameters: exact class defaults are compared as 'model:' (drift) clauses; alpha_start / sigma_end defaults are only observed as finite and positive",
         "extend_material_to_pml is specified by its order-free clamp form; warnings it emits are not judged",
     ]
+    if os.environ.get("VERIF_SKIP_MC") == "1":     # development knob
+        return
+    jobs = _mc_jobs(ctx)
+
+    def one(job):
+        kind, module, cfg, workers, _ = job
+        if kind == "mc":
+            return tlc.run_tlc(module, cfg, workers=workers, timeout=3600 if ctx.quick else 4 * 3600)
+        return tlc.run_tlc(module, cfg, workers=workers, timeout=600, expect_violation=True)
+
+    with ThreadPoolExecutor(max_workers=len(jobs)) as ex:
+        results = list(ex.map(one, jobs))          # a MachineryError of any run propagates here
+    for (kind, module, cfg, _, label), r in zip(jobs, results):
+        if kind == "mc":
+            ctx.states += r.distinct
+            ctx.transitions += r.generated
+            ctx.mc_runs.append({"module": module, "cfg": cfg, "distinct": r.distinct, "generated": r.generated, "depth": r.depth, "wall_s": round(r.wall_s, 1), "label": label})
+        else:
+            if r.violated is None:
+                raise tlc.MachineryError(f"negative instance {module}/{cfg} was NOT rejected by TLC: invariant is vacuous")
+            ctx.mc_runs.append({"module": module, "cfg": cfg, "negative_instance_rejected": r.violated, "wall_s": round(r.wall_s, 1), "label": label})
 
 
 # ------------------------------------------------------------------ case generation
@@ -70,7 +105,7 @@ def _direct(cid, rng, types, dims=None, th=None, none_p=0.0, bv=None):
     par = [[(-1 if rng.random() < none_p else codes[f * 9 + k]) for k in range(9)] for f in range(6)]
     bv = bv if bv is not None else [rng.randint(1, 40) * rng.choice((-1, 1)) for _ in range(3)]
     return {"id": cid, "kind": "scene", "mode": "direct", "dims": dims, "base": "pml", "ov": list(types), "thick": th, "par": par,
-            "uth": 0, "upar": [], "bv": bv, "ov_given": True}
+            "uth": 0, "upar": [], "bv": bv, "ov_given": True, "order": rng.sample(range(6), 6), "ctor": "explicit"}
 
 
 def _uniform(cid, rng, base, ov, uth=None, none_all=False, ov_given=True, dims=None):
@@ -78,7 +113,7 @@ def _uniform(cid, rng, base, ov, uth=None, none_all=False, ov_given=True, dims=N
     dims = dims or [rng.randint(2 * uth + 2, 9) for _ in range(3)]
     upar = [-1] * 9 if none_all else _codes(rng, 9)
     return {"id": cid, "kind": "scene", "mode": "uniform", "dims": dims, "base": base, "ov": list(ov), "thick": [], "par": [],
-            "uth": uth, "upar": upar, "bv": [rng.randint(1, 40) for _ in range(3)], "ov_given": ov_given}
+            "uth": uth, "upar": upar, "bv": [rng.randint(1, 40) for _ in range(3)], "ov_given": ov_given, "order": rng.sample(range(6), 6), "ctor": "explicit"}
 
 
 def _extend(cid, rng, types, complexity):
@@ -97,7 +132,7 @@ def _extend(cid, rng, types, complexity):
         if complexity >= 3 and i == 0:
             m["eps"] = [2.0, 4.0, 8.0]                 # diagonally anisotropic: three-component arrays
         mats.append(m)
-    return {"id": cid, "kind": "extend", "dims": dims, "types": list(types), "thick": th, "mats": mats}
+    return {"id": cid, "kind": "extend", "dims": dims, "types": list(types), "thick": th, "mats": mats, "order": rng.sample(range(6), 6)}
 
 
 def gen_cases(ctx):
@@ -120,6 +155,13 @@ def gen_cases(ctx):
     yield _uniform("uniform-defaults", rng, "pml", ["none"] * 6, none_all=True, ov_given=False)
     yield _uniform("uniform-periodic-noov", rng, "periodic", ["none"] * 6, ov_given=False)
     yield _uniform("uniform-all-overridden", rng, "pmc", ["pml", "pec", "bloch", "periodic", "pml", "pmc"])
+    # documented defaults: BoundaryConfig() and from_uniform_bound() without arguments = PML of 10 cells everywhere, nothing configured
+    d = _direct("ctor-defaults", rng, ("pml",) * 6, dims=[22, 21, 23], th=[10] * 6, none_p=2.0, bv=[0, 0, 0])
+    d["ctor"] = "defaults"
+    yield d
+    u = _uniform("uniform-ctor-defaults", rng, "pml", ["none"] * 6, uth=10, none_all=True, ov_given=False, dims=[21, 22, 21])
+    u["ctor"], u["bv"] = "defaults", [0, 0, 0]
+    yield u
     # D. unknown types are rejected, known ones never
     yield _direct("unknown-direct", rng, ("pml", "pec", "absorbing", "pml", "periodic", "periodic"))
     yield _direct("unknown-case", rng, ("pml", "pml", "pml", "pml", "pml", "PML"))
@@ -179,6 +221,8 @@ def _idx(sl, n):
 
 def _build_config(case, fdtdx):
     bv = tuple(float(k) * BV_UNIT for k in case["bv"])
+    if case.get("ctor") == "defaults":
+        return fdtdx.BoundaryConfig() if case["mode"] == "direct" else fdtdx.BoundaryConfig.from_uniform_bound()
     if case["mode"] == "direct":
         kw = {}
         for f, sfx in enumerate(SFX):
@@ -220,7 +264,9 @@ def _observe_scene(case):
         with _BUILD_LOCK:
             vol = fdtdx.SimulationVolume(name="vol", partial_grid_shape=tuple(dims), material=fdtdx.Material(permittivity=1.0))
             bdict, cons = fdtdx.boundary_objects_from_config(bc, vol)
-        oc, _arrays, _, _cfg2, _ = fdtdx.place_objects([vol] + list(bdict.values()), cfg, cons)
+        blist = list(bdict.values())
+        blist = [blist[i] for i in case.get("order", range(6))]          # the order of the object list must not matter
+        oc, _arrays, _, _cfg2, _ = fdtdx.place_objects([vol] + blist, cfg, cons)
     except ValueError as e:
         msg = str(e)
         rec["err"] = "unknown_type" if "Unknown boundary type" in msg else "other"
@@ -289,7 +335,8 @@ def _observe_extend(case):
         with _BUILD_LOCK:
             vol = fdtdx.SimulationVolume(name="vol", partial_grid_shape=tuple(dims), material=fdtdx.Material(permittivity=1.0))
             bdict, cons = fdtdx.boundary_objects_from_config(bc, vol)
-            objs, cons = [vol] + list(bdict.values()), list(cons)
+            blist = list(bdict.values())
+            objs, cons = [vol] + [blist[i] for i in case.get("order", range(6))], list(cons)      # PML processing order = object order
             for i, m in enumerate(case["mats"]):
                 eps = tuple(m["eps"]) if isinstance(m["eps"], list) else m["eps"]
                 o = fdtdx.UniformMaterialObject(name=f"m{i}", partial_grid_shape=tuple(h - l for l, h in zip(m["lo"], m["hi"])),
@@ -329,9 +376,25 @@ def classify(record, verdict):
 def run(ctx):
     from lib.worker import pmap
 
-    model_check(ctx)
-    inputs = list(gen_cases(ctx))
-    recs = pmap(__name__, "observe", inputs, procs=PARALLEL, mode="thread")
+    import threading
+
+    box = {}
+
+    def _mc():
+        try:
+            model_check(ctx)
+        except BaseException as e:  # noqa: BLE001 - re-raised in the main thread below
+            box["exc"] = e
+
+    th = threading.Thread(target=_mc)              # TLC on the specifications runs while the real code is observed
+    th.start()
+    try:
+        inputs = list(gen_cases(ctx))
+        recs = pmap(__name__, "observe", inputs, procs=PARALLEL, mode="thread")
+    finally:
+        th.join()
+    if "exc" in box:
+        raise box["exc"]
     scenes = [r for r in recs if r["kind"] == "scene"]
     exts = [r for r in recs if r["kind"] == "extend"]
     for r in scenes[:2] + exts[:1]:
